@@ -71,8 +71,7 @@ impl Block {
         combined.extend_from_slice(data);
 
         let file_offset = self.offset + in_block_offset;
-        self.mmap.write(file_offset as usize, &combined);
-        Ok(())
+        self.mmap.write(file_offset as usize, &combined)
     }
 
     pub(crate) fn read(&self, in_block_offset: u64) -> std::io::Result<(Entry, usize)> {
@@ -139,7 +138,6 @@ impl Block {
         }
         let zeros = vec![0u8; len];
         let file_offset = self.offset + in_block_offset;
-        self.mmap.write(file_offset as usize, &zeros);
-        Ok(())
+        self.mmap.write(file_offset as usize, &zeros)
     }
 }
